@@ -186,7 +186,8 @@ impl<'a> Gm<'a> {
         if held.is_empty() {
             return false;
         }
-        let res = *g.pick(&held);
+        let refused: Vec<ResourceAddress> = held.iter().copied().filter(|r| self.r(r).refused_by_last).collect();
+        let res = if !refused.is_empty() && g.chance(1, 4) { *g.pick(&refused) } else { *g.pick(&held) };
         let have = self.acct[i][&res].clone();
         let part = self.part_of(g, &res, &have, true);
         let lock = g.chance(1, 5);
@@ -321,7 +322,8 @@ impl<'a> Gm<'a> {
 
     /// Deposit of buckets or of the entire worktop with any of the six methods.
     fn step_deposit(&mut self, g: &mut Gen, force_all: bool) -> bool {
-        let i = g.index(3);
+        // the refusing account a little more often, so that refunds really happen
+        let i = if g.chance(1, 4) { 2 } else { g.index(3) };
         let a = self.account(i);
         let refuses = |s: &Self, r: &ResourceAddress| i == 2 && s.r(r).refused_by_last;
         let live = self.live_buckets();
